@@ -243,7 +243,9 @@ func VerifC12_UnorderedFilterKeepsLabelledPods() {
 		}
 		if verifrt.Bool("pod.labelled") {
 			p.Labels[v1beta1.RolloutIDLabel] = c12RolloutID
-			p.Labels[v1beta1.RolloutBatchIDLabel] = "1"
+			// labelled in this or in an earlier batch (seed C12-15: "already labelled" asked per batch, so
+			// earlier batches' no-need-update pods fell out of the patcher's view from the second batch on)
+			p.Labels[v1beta1.RolloutBatchIDLabel] = []string{"1", "2"}[verifrt.IntRange("pod.batchID", 0, 1)]
 		}
 		if verifrt.Bool("pod.terminating") {
 			now := metav1.Now()
@@ -252,6 +254,7 @@ func VerifC12_UnorderedFilterKeepsLabelledPods() {
 		list = append(list, p)
 	}
 	ctx := &batchcontext.BatchContext{RolloutID: c12RolloutID, UpdateRevision: c12Revision}
+	ctx.CurrentBatch = int32(verifrt.IntRange("currentBatch", 0, 2))
 	ctx.DesiredUpdatedReplicas = int32(verifrt.IntRange("desired", 0, 5))
 	ctx.PlannedUpdatedReplicas = int32(verifrt.IntRange("planned", 0, 5))
 	in := append([]*corev1.Pod(nil), list...)
